@@ -19,7 +19,7 @@ func init() {
 		"that relative paths are resolved against a working directory set through the view (the view starts with a copy of the parent's)",
 		"symbolic links inside the view whose absolute target names something outside it (they restart at the view's root)",
 	}
-	register(&Rule{ID: "C11.copy", Floor: 2,
+	register(&Rule{ID: "C11.copy", Also: []string{"C09"}, Floor: 2,
 		Text: "every Sub method of package memfs returns, on success, a pointer to a fresh allocation initialised by a whole-struct copy of the receiver followed by a store of the found *dirNode into rootNode; it never returns the receiver and never writes to it (no store through the receiver, no call of a receiver-mutating method on it)",
 		Run:  c11Copy})
 	register(&Rule{ID: "C11.value", Floor: 4,
@@ -28,7 +28,7 @@ func init() {
 	register(&Rule{ID: "C11.confine", Floor: 4,
 		Text: "upward traversal is impossible by construction: node types hold no reference to a directory other than the children map, and in the path walk the directory cursor is only ever assigned the view's rootNode or a child of the current cursor; absolute link targets restart at the cursor's starting root",
 		Run:  c11Confine})
-	register(&Rule{ID: "C08.atomic", Floor: 2, Also: []string{"C05"},
+	register(&Rule{ID: "C08.atomic", Floor: 2, Also: []string{"C05", "C06"},
 		Text: "a field (or the target of a pointer field) that is accessed through sync/atomic anywhere - or is listed as shared without a lock: the id counter shared by all views, the umask - is accessed through sync/atomic everywhere (a plain increment of the id counter hands the same id to two files created in different directories: SameFile then confuses them)",
 		Run:  c08Atomic})
 }
@@ -129,6 +129,15 @@ func c11Copy(rc *RuleCtx) {
 				case *ssa.Store:
 					if rootAlloc(x.Addr) == ssa.Value(recv) {
 						bad = "Sub writes a field of its receiver (" + accessPath(x.Addr) + "): creating a view changes the parent"
+					}
+				case *ssa.MapUpdate:
+					// a map held by the struct is shared by the copy: an update through the copy is an update of the parent
+					for _, o := range originsOf(x.Map) {
+						if ld, ok := o.(*ssa.UnOp); ok && ld.Op == token.MUL {
+							if fa, ok := ld.X.(*ssa.FieldAddr); ok {
+								bad = "Sub updates the map " + fieldName(fa.X.Type(), fa.Field) + ", which the struct copy shares with the parent and every other view: creating a view changes the parent's tree"
+							}
+						}
 					}
 				case ssa.CallInstruction:
 					if sc := x.Common().StaticCallee(); sc != nil && len(x.Common().Args) > 0 && rootAlloc(x.Common().Args[0]) == ssa.Value(recv) && writesReceiver(sc) {
